@@ -998,7 +998,14 @@ def beat_period_log_rescale(tempo_params):
 def beat_period_standardized_scale(beat_period):
     beat_period_std = np.std(beat_period) * np.ones_like(beat_period)
     beat_period_mean = np.mean(beat_period) * np.ones_like(beat_period)
-    beat_period_standardized = (beat_period - beat_period_mean) / beat_period_std
+    # a constant tempo curve has standard deviation 0: its standardized values are 0
+    # (rescaling then gives back the mean, i.e., the constant itself) instead of 0 / 0
+    beat_period_standardized = np.divide(
+        beat_period - beat_period_mean,
+        beat_period_std,
+        out=np.zeros_like(beat_period_std),
+        where=beat_period_std != 0,
+    )
     return [beat_period_standardized, beat_period_mean, beat_period_std]
 
 
